@@ -1,7 +1,7 @@
 (* C13 — whitespace stripping acts as if the stripped text nodes were not in the source.
    Statements only; proofs are in StripModel.v (decision) and StripTreeModel.v (observations). *)
 From Coq Require Import String List NArith Bool.
-Require Import XV.GenStrip XV.StripDefs XV.StripModel XV.StripTreeModel XV.StripObsDefs XV.StripObsModel.
+Require Import XV.GenStrip XV.StripDefs XV.StripModel XV.StripTreeModel XV.StripObsDefs XV.StripObsModel XV.StripZipDefs XV.StripZipModel.
 Open Scope list_scope.
 Import ListNotations.
 
@@ -118,6 +118,20 @@ Theorem remove_stripped_idempotent : forall st x, remove_stripped st (remove_str
 Proof. exact rs_idempotent. Qed.
 Print Assumptions remove_stripped_idempotent.
 
+(* ---- the full-zipper observation language: parent, ancestor, following and preceding axes as well ----------- *)
+Theorem strip_equiv_all_axes : forall st a z, zvisible st z = true ->
+  map (zstrip st) (zaxis_ctxs st a z) = zaxis_ctxs no_strip a (zstrip st z).
+Proof. exact zaxis_equiv. Qed.
+Print Assumptions strip_equiv_all_axes.
+
+(* any path over the eleven axes self, child, descendant(-or-self), parent, ancestor(-or-self), following(-sibling),
+   preceding(-sibling) with node tests and positional predicates, from the document element; every result observed
+   by string-value, copy, position, numbers of siblings and children, depth, numbers of following and preceding nodes *)
+Theorem strip_equiv_zipper : forall st p n a ks,
+  zrun st p (Elem n a ks) = zrun no_strip p (remove_stripped st (Elem n a ks)).
+Proof. exact zstrip_equiv. Qed.
+Print Assumptions strip_equiv_zipper.
+
 (* ---- keys, xsl:number level="single", sort keys ------------------------------------------------------ *)
 (* key('k', v) for xsl:key match=<node test> use="." : the same nodes (up to the removal) *)
 Theorem strip_equiv_key_dot : forall st m v n a ks,
@@ -195,9 +209,8 @@ Example ex_observation :
   /\ map o_child_count (run_obs no_strip [ {| s_axis := AxDescendantOrSelf; s_test := TAnyElem; s_pred := PAll |} ] ex_doc) = [4; 3; 1].
 Proof. repeat split; reflexivity. Qed.
 
-(* ---- xsl:number level="any" with a from pattern is not strip-independent (known finding K-C13-2) ----------- *)
-(* <d><b><b>WS</b></b><c/></d>, strip-space elements="b", current node c, count="node()" from="b":
-   the walk of the code gives 1 on the original and 2 on the physically stripped document *)
+(* ---- xsl:number level="any" ------------------------------------------------------------------------------- *)
+(* <d><b><b>WS</b></b><c/></d>, strip-space elements="b", current node c, count="node()" from="b" *)
 Definition ex_walk : list wnode :=
   [ {| w_depth := 1; w_from := false; w_count := true; w_stripped := false |};    (* c *)
     {| w_depth := 3; w_from := false; w_count := false; w_stripped := true |};    (* the stripped text *)
@@ -205,20 +218,33 @@ Definition ex_walk : list wnode :=
     {| w_depth := 1; w_from := true; w_count := true; w_stripped := false |};     (* outer b *)
     {| w_depth := 0; w_from := false; w_count := true; w_stripped := false |} ].  (* d *)
 
-Theorem number_any_strip_refuted :
-  exists l, walk_ok l /\ number_any (walk_strip l) <> number_any l.
+Lemma ex_walk_ok : walk_ok ex_walk.
 Proof.
-  exists ex_walk. split.
-  - intros x Hx S. cbn in Hx. repeat (destruct Hx as [<-|Hx]; [cbn in S; try discriminate; split; reflexivity|]). destruct Hx.
-  - vm_compute. discriminate.
+  intros x Hx S. cbn in Hx. repeat (destruct Hx as [<-|Hx]; [cbn in S; try discriminate; split; reflexivity|]). destruct Hx.
 Qed.
+
+(* the pinned tree (getPreviousNode tests from only on moves to a parent; known finding K-C13-2, repaired in
+   /repo by d323070): the walk gives 1 on the original and 2 on the physically stripped document *)
+Theorem number_any_strip_refuted :
+  exists l, walk_ok l /\ number_any_pinned (walk_strip l) <> number_any_pinned l.
+Proof. exists ex_walk. split; [exact ex_walk_ok|]. vm_compute. discriminate. Qed.
 Print Assumptions number_any_strip_refuted.
 
-(* exact guard used by the generators: no from pattern *)
-Theorem number_any_strip_partial : forall l, walk_ok l -> (forall x, In x l -> w_from x = false) ->
-  number_any (walk_strip l) = number_any l.
+(* exact guard for that configuration: no from pattern (holds for every configuration) *)
+Theorem number_any_strip_partial : forall every sf l, walk_ok l -> (forall x, In x l -> w_from x = false) ->
+  number_any_cfg every sf (walk_strip l) = number_any_cfg every sf l.
 Proof. exact number_any_strip_partial_lemma. Qed.
 Print Assumptions number_any_strip_partial.
+
+(* the source as it is now (GenStrip.number_from_on_every_node = true): the count of a visible node is the same
+   in the original and in the physically stripped document, for every from and count pattern *)
+Theorem number_any_strip_independent : forall x r, walk_ok (x :: r) -> w_stripped x = false ->
+  number_any (walk_strip (x :: r)) = number_any (x :: r).
+Proof. intros x r. unfold number_any. change number_from_on_every_node with true. apply number_any_repaired_strip. Qed.
+Print Assumptions number_any_strip_independent.
+
+Example ex_number_any_now : number_any ex_walk = 1 /\ number_any (walk_strip ex_walk) = 1.
+Proof. split; reflexivity. Qed.
 
 (* keys: with the declarations of ex_sheet the element a has the string-value "" (its whitespace is stripped), without
    declarations it does not; the text-children key of the document element sees " " and "x" in both *)
